@@ -18,8 +18,9 @@ RULE = ("dyadic: account of NLV 1024/4096 with prior holdings w_i*NLV/(p*M) (wei
         "the indifference band (|w_imb| within 1e-9 of thr, lot imbalance within 1e-9 of an integer) are excluded and counted. "
         "Non-trivial = a contract exactly at the threshold, or a liquidation below the threshold, or a lot imbalance in (-1,1).")
 ASSUMPTIONS = [
-    "in whole-lot mode the property does not say whether the threshold applies to the truncated or the untruncated imbalance: when the two "
-    "fall on different sides of the threshold either outcome is accepted for that contract (the traded quantity must still be the truncation)",
+    "in whole-lot mode the threshold is applied to the weight of the untruncated imbalance (the statement's 'its imbalance weight'); the traded "
+    "quantity is the truncation of that imbalance; cases where truncated and untruncated weights fall on different sides of the threshold are a "
+    "coverage class (truncation-crosses-threshold)",
     "dyadic part compares quantities with ==; free part rel 1e-9",
     "thresholds from {0, 1/16, 1/8, 1/4, 1/2} (dyadic) / {0, 0.05, 0.125, 0.25, 0.5} (free)",
 ]
@@ -132,9 +133,11 @@ def expected_trades(lab, case, nlv, exact):
             if qty == 0:
                 out[i] = ("none",)
                 continue
+            # The statement speaks of "its imbalance weight" and of "truncating the imbalance": the threshold applies to
+            # the weight of the (untruncated) imbalance, the traded quantity is its truncation.
             w_trunc = M * qty * px_imb / nlv
             if not liquidation and (abs(w_imb) >= thr) != (abs(w_trunc) >= thr):
-                verdict = ("either", qty)
+                flags.add("truncation-crosses-threshold")
         if not exact and thr > 0 and abs(abs(w_imb) - thr) <= 1e-9 * max(1.0, thr):
             band = True
         if abs(w_imb) == thr and thr > 0:
@@ -230,8 +233,6 @@ def run_filter(case, exact):
     for f in flags:
         res.tag(f)
     res.tag("lots" if not case["fractional"] else "fractional", case["measure"], "thr=%g" % case["thr"])
-    if any(v[0] == "either" for v in model.values()):
-        res.tag("lot-threshold-ambiguity")
     return res
 
 
